@@ -303,6 +303,21 @@ func (h *hist) sigFor(k []byte) string {
 	if h.sawSkip {
 		return "F11-l0-to-base-skips-nonempty-level"
 	}
+	if h.o.Managed && h.nCompact > 0 {
+		// managed mode: the key was written at a version below one it already had, and a
+		// compaction ran (finding F10)
+		var maxv uint64
+		for _, w := range h.ref {
+			if bytes.Equal(w.Key, k) {
+				if w.Ver < maxv {
+					return "F10-managed-older-version-written-later-after-compaction"
+				}
+				if w.Ver > maxv {
+					maxv = w.Ver
+				}
+			}
+		}
+	}
 	return "read-mismatch"
 }
 
